@@ -160,3 +160,60 @@ fn ki6_fast_loop_walks_the_window_ring() {
     kani::cover!(calls == 1);
     core::mem::forget(state);
 }
+
+// The same question with data: a concrete match (length 4 at distance 6, nothing written yet in this call) served from a
+// wrapped 8-byte window whose bytes name their ring position, write head anywhere.  The window copy is replaced by a plain
+// byte loop with the primitive's semantics (the chunked primitive itself is KI2's subject), so the bytes are there under the
+// solver and under a native replay alike: out[i] is the byte 6 - i positions behind the write head.
+pub(crate) fn stub_efw_bytewise<'a, const FEATURES: usize>(w: &mut Writer<'a>, window: &Window<'_>, range: core::ops::Range<usize>)
+where
+    'a: 'a,
+{
+    assert!(range.start <= range.end && range.end <= window.size(), "extend_from_window: range outside the window");
+    let mut i = range.start;
+    while i < range.end {
+        let b = unsafe { *window.as_ptr().add(i) };
+        w.push(b);
+        i += 1;
+    }
+}
+
+#[kani::proof]
+#[kani::unwind(10)]
+#[kani::stub(crate::inflate::inftrees::inflate_table, stub_table_unreachable)]
+#[kani::stub(core::fmt::write, stub_fmt_write)]
+#[kani::stub(core::panicking::panic_nounwind, stub_pn)]
+#[kani::stub(core::panicking::panic_nounwind_fmt, stub_pnf)]
+#[kani::stub(crate::inflate::writer::Writer::copy_match_with_features, stub_copy_match_contract)]
+#[kani::stub(crate::inflate::writer::Writer::extend_from_window_with_features, stub_efw_bytewise)]
+fn ki6_fast_loop_match_from_a_wrapped_window() {
+    const W: usize = 8;
+    let mut out = [0xEEu8; 4 + 262 + 8];
+    // length symbol 258 (length 4), distance code 4 + extra bit 1 (distance 6), end of block, padding
+    let input: [u8; 15] = [0x20, 0x12, 0, 0, 0, 0, 0, 0, 0, 0, 0, 0, 0, 0, 0];
+    let mut win = [0u8; W + 64];
+    let mut k = 0;
+    while k < W {
+        win[k] = 0xA0 + k as u8;
+        k += 1;
+    }
+    let mut state = typed_state(&mut win, 0, Mode::Len);
+    state.len_table = Table { codes: Codes::Fixed, bits: 9 };
+    state.dist_table = Table { codes: Codes::Fixed, bits: 5 };
+    let next: usize = kani::any();
+    kani::assume(next < W);
+    crate::inflate::window::verif_kani::set_ring(&mut state.window, W, next);
+    unsafe { state.bit_reader.update_slice(input.as_ptr(), 15) };
+    state.writer = unsafe { Writer::new_uninit_raw(out.as_mut_ptr().add(4), 0, 262) };
+    unsafe { inflate_fast_help_impl::<{ crate::cpu_features::CpuFeatures::NONE }>(&mut state, 0) };
+    assert!(matches!(state.mode, Mode::Type | Mode::Len), "no error: the match is valid for a full window");
+    assert!(state.writer.len() == 4);
+    core::mem::forget(state);
+    let mut i = 0;
+    while i < 4 {
+        assert!(out[4 + i] == 0xA0 + ((next + W - 6 + i) % W) as u8, "stream order: the byte `distance - i` positions behind the write head");
+        i += 1;
+    }
+    kani::cover!(next == 3);
+    kani::cover!(next == 0);
+}
